@@ -588,8 +588,33 @@ func TestC17SlowVacuum(t *testing.T) {
 		c.Insert(func(r column.Row) error { r.SetUint64("id", uint64(i)); r.SetTTL(ttl); return nil })
 		deadlines[uint64(i)] = before.Add(ttl)
 	}
-	for step := 0; step < 21; step++ {
+	// beside it, a keyed collection with the same slow cleanup: a row whose short TTL is over but which
+	// the cleanup has not yet visited still owns its key. Whatever InsertKey answers then, a row that an
+	// insert WITHOUT a TTL reported as created never expires.
+	k := column.NewCollection(column.Options{Vacuum: 1500 * time.Millisecond})
+	defer k.Close()
+	k.CreateColumn("key", column.ForKey())
+	k.CreateColumn("gen", column.ForInt())
+	k.InsertKey("a", func(r column.Row) error { r.SetInt("gen", 1); r.SetTTL(50 * time.Millisecond); return nil })
+	immortal := 0 // generation of the row that was created without a TTL (0 = none yet)
+	keyedHistory := ""
+	keyedStep := func(step int) {
+		gen, found := 0, false
+		k.QueryKey("a", func(r column.Row) error { gen, found = r.Int("gen"); return nil })
+		if immortal != 0 && (!found || gen != immortal) {
+			t.Fatalf("C17 violated: the row that InsertKey(\"a\") created WITHOUT a TTL (generation %d) is gone %d ms later (found=%v generation %d); history: %s", immortal, step*100, found, gen, keyedHistory)
+		}
+		if immortal == 0 && step >= 2 {
+			err := k.InsertKey("a", func(r column.Row) error { r.SetInt("gen", step+10); return nil })
+			keyedHistory += fmt.Sprintf("%dms: InsertKey(a, no TTL) while the expired row found=%v -> %v; ", step*100, found, err)
+			if err == nil {
+				immortal = step + 10
+			}
+		}
+	}
+	for step := 0; step < 36; step++ {
 		time.Sleep(100 * time.Millisecond)
+		keyedStep(step)
 		present := c17Present(c)
 		now := time.Now()
 		for id, d := range deadlines {
@@ -598,5 +623,9 @@ func TestC17SlowVacuum(t *testing.T) {
 			}
 		}
 	}
-	RecordCase("C17", "slow cleanup: interval 1.5s, rows with a TTL of 2.9s survive the pass before their deadline", true, "cleanup-interval-longer-than-a-second")
+	labels := []string{"cleanup-interval-longer-than-a-second"}
+	if immortal != 0 {
+		labels = append(labels, "key-of-an-overdue-row-inserted-again") // (liveness of the cleanup is judged by TestC17, with its bounds)
+	}
+	RecordCase("C17", "slow cleanup: interval 1.5s, rows with a TTL of 2.9s survive the pass before their deadline; keyed: "+keyedHistory, true, labels...)
 }
